@@ -942,6 +942,16 @@ func (g *Gen) genCtx() *Ast {
 		o, _ := g.pickOperand("int", "uint", "float", "string", "bytes", "bool", "missing")
 		a.CtxSrc = o.Path
 		g.tag("ctx:var:" + o.Kind)
+		// sources whose storage belongs to the engine: loop variables and template-made counters
+		if len(g.scope) > 0 && r.Chance(35) {
+			if sv := g.scope[r.Intn(len(g.scope))]; sv.Kind != "hist" {
+				a.CtxSrc = sv.Name
+				g.tag("ctx:var:loopvar")
+			}
+		} else if r.Chance(12) {
+			a.CtxSrc = fmt.Sprintf("n%d", r.Intn(2))
+			g.tag("ctx:var:counter")
+		}
 		if g.p.Mods && r.Chance(30) {
 			m := g.genMod()
 			var plain []AArg
